@@ -1073,6 +1073,22 @@ def origins(prog: Program, fi: FuncInfo, expr: ast.AST | None, node: Node, _seen
     if isinstance(expr, ast.Constant):
         return frozenset({("const", repr(expr.value))})
     if isinstance(expr, ast.Name):
+        # a variable of an enclosing comprehension: [g(child) for child in xs]  ->  child iterates over xs
+        from .loader import parent as _parent
+
+        p_ = _parent(expr)
+        hops = 0
+        while p_ is not None and not isinstance(p_, ast.stmt) and hops < 40:
+            hops += 1
+            if isinstance(p_, (ast.ListComp, ast.SetComp, ast.GeneratorExp, ast.DictComp)):
+                for g in p_.generators:
+                    tnames = [x.id for x in ast.walk(g.target) if isinstance(x, ast.Name)]
+                    if expr.id in tnames and not any(x is expr for x in ast.walk(g.iter)):
+                        idx = None
+                        if isinstance(g.target, (ast.Tuple, ast.List)):
+                            idx = next((i for i, x in enumerate(g.target.elts) if isinstance(x, ast.Name) and x.id == expr.id), None)
+                        return frozenset(("iter", o, idx) for o in origins(prog, fi, g.iter, node, _seen))
+            p_ = _parent(p_)
         defs = flow.reaching(node, expr.id)
         if not defs:
             f = fi.parent
